@@ -72,7 +72,9 @@ class BitBuffer:
     def flush(self) -> None:
         if self._type is not None:
             # Write the raw storage unit; going through a signed type would reject units with the top bit set
-            self.stream.write(self._buffer.to_bytes(self._type.size, "little" if self.endian == "<" else "big"))
+            from dissect.cstruct.utils import ENDIANNESS_MAP  # circular import
+
+            self.stream.write(self._buffer.to_bytes(self._type.size, ENDIANNESS_MAP[self.endian]))
         self._type = None
         self._remaining = 0
         self._buffer = 0
